@@ -4,6 +4,7 @@ mod c09;
 mod c10;
 mod c11;
 mod c39;
+mod classify;
 mod calib;
 mod common;
 mod dustrun;
